@@ -378,7 +378,7 @@ class Result:
         for i, (desc, replay, no_input) in enumerate(self.violations):
             path = os.path.join(ROOT, "replays", f"{self.pid}_{self.tier}_{self.seed}_{i}.json")
             with open(path, "w") as f:
-                json.dump({"property": self.pid, "what": desc, "replay": replay,
+                json.dump({"property": self.pid, "what": desc, "replay": replay, "tier": self.tier, "seed": self.seed,
                            "no_failing_input_found": no_input}, f, indent=1, default=str)
             tail = " no-failing-input-found" if no_input else ""
             print(f"# {desc}")
